@@ -71,6 +71,8 @@ def cases(spec, ctx):
             # big budgets: keep pictures tiny so the case stays fast
             r["w"] = min(r["w"], 8)
             r["h"] = min(r["h"], 8)
+            for kk in ("cw", "ch", "lo", "to"):
+                r.pop(kk, None)
             xm = 2 if r["cdf"] else 1
             ym = (2 if r["cdf"] == 2 else 1) * (2 if (r["pcm"] or r["ss"]) else 1)
             r["w"] = max(xm, r["w"] - r["w"] % xm)
